@@ -8,8 +8,8 @@ open Nom
 at.  Here the calls are as written in `build.rs` (`SOp`: paths only) and the input tree is what the
 operating system shows at a path (`InFS`, an arbitrary function: path resolution — relative paths,
 `..`, symbolic links — is the operating system's and stays a parameter).  `resolve` is what
-`read_dir` / `File::open` deliver to the call.  A call fails (`none`, the `?` in `build.rs`) when
-the directory cannot be listed or the file cannot be opened.
+`read_dir` / `File::open` deliver to the call; when the directory cannot be listed or the file cannot
+be opened the call fails (`Op.failed`) after printing its line.
 -/
 namespace Ructe
 
@@ -31,36 +31,28 @@ inductive SOp where
   | addFileData (path data : Bytes)
 
 /-- what `read_dir` / `File::open` hand to a call -/
-def SOp.resolve (t : InFS) : SOp → Option Op
+def SOp.resolve (t : InFS) : SOp → Op
   | .compileTemplates d =>
     match t d with
-    | some (.dir es) => some (.compileTemplates d es)
-    | _ => none
+    | some (.dir es) => .compileTemplates d es
+    | _ => .failed false d
   | .addFile p =>
     match nameAndExt (baseName p) with
-    | none => some (.addFile p [])           -- skipped without opening anything
+    | none => .addFile p []           -- skipped without opening anything
     | some _ =>
       match t p with
-      | some (.file c) => some (.addFile p c)
-      | _ => none
+      | some (.file c) => .addFile p c
+      | _ => .failed true p
   | .addFiles d =>
     match t d with
-    | some (.dir es) => some (.addFiles d es)
-    | _ => none
-  | .addFileAs p u => some (.addFileAs p u)  -- the file is opened by rustc (`include_bytes!`), not by the run
+    | some (.dir es) => .addFiles d es
+    | _ => .failed true d
+  | .addFileAs p u => .addFileAs p u  -- the file is opened by rustc (`include_bytes!`), not by the run
   | .addFilesAs d to =>
     match t d with
-    | some (.dir es) => some (.addFilesAs d to es)
-    | _ => none
-  | .addFileData p data => some (.addFileData p data)
-
-/-- the whole script; `none` = the build script fails -/
-def resolveAll (t : InFS) : List SOp → Option (List Op)
-  | [] => some []
-  | s :: r =>
-    match s.resolve t, resolveAll t r with
-    | some o, some os => some (o :: os)
-    | _, _ => none
+    | some (.dir es) => .addFilesAs d to es
+    | _ => .failed true d
+  | .addFileData p data => .addFileData p data
 
 /-- the path whose state a call depends on (`none`: the call looks at nothing) -/
 def SOp.root : SOp → Option Bytes
@@ -73,7 +65,7 @@ def SOp.root : SOp → Option Bytes
 
 /-- one complete run of a build script on an input tree and a prior OUT_DIR state -/
 def runScript (uniEsc uniAlnum : Nat → Bool) (feat : MimeFeature) (fs : FS) (outdir utilsRs : Bytes)
-    (t : InFS) (script : List SOp) : Option Out :=
-  (resolveAll t script).map (build uniEsc uniAlnum feat fs outdir utilsRs)
+    (t : InFS) (script : List SOp) : Out :=
+  build uniEsc uniAlnum feat fs outdir utilsRs (script.map (SOp.resolve t))
 
 end Ructe
